@@ -196,6 +196,16 @@ func runC05(t *testing.T, c *choice.Stream, r *Result, opt RunOpt) {
 		if len(p) > 1<<20 && i > 0 {
 			p = p[:1<<16]
 		}
+		if i == 0 && nf == 1 && c.Bool("payload.limit", 1, 2500) {
+			// the documented ceiling itself: a block of exactly (and just under) 128 MiB
+			m, lvl = compress.None, 0
+			w = compress.NewWriter(0, m)
+			p = make([]byte, (128<<20)-c.Pick("payload.limit.minus", 0, 1, 8, 9, 10))
+			for j := 0; j < len(p); j += 4099 {
+				p[j] = byte(j >> 7)
+			}
+			r.Probe("payload_at_the_limit")
+		}
 		if i > 0 && c.Bool("payload.grow", 1, 4) {
 			// slightly longer than the previous payload and incompressible: the
 			// compressor's buffers are just too small for it
